@@ -135,7 +135,9 @@ class unix_disabled(uh.ifc.DisabledHash, uh.MinimalHandler):
     @classmethod
     def enable(cls, hash):
         hash = to_native_str(hash, param="hash")
-        for prefix in cls._disable_prefixes:
+        # NOTE: a customized marker (e.g. "*LK*") may be longer than one character,
+        #       it has to be stripped as a whole.
+        for prefix in (cls.default_marker,) + cls._disable_prefixes:
             if hash.startswith(prefix):
                 orig = hash[len(prefix) :]
                 if orig:
